@@ -10,6 +10,11 @@ exception), `_start_exec` / `ErrorStack` (keeps the entries of the escaping exce
 outermost first, and empties the list) as repaired by the `fix:` commit recorded in
 known_findings.json.  The ghost field `excStack` is the call stack at the moment the most
 recent exception object was created.
+
+Identities: `excCount` numbers the exception objects; `curExc` is the one that propagates.  A call
+that returns leaves the caller's `curExc` as it was (`keepExc` in `eval_node`), which is what makes
+the blocks `except …: audit(x); raise` and `finally: audit(x)` right: the exception that goes on
+after the block is the one that was caught, whatever `audit` raised and handled inside.
 -/
 namespace MxModel.C17
 open MxModel.Exec
@@ -34,9 +39,9 @@ theorem traceback_is_chain (env : Env) (hp : ProperEnv env) (n : Node) (s : St)
     cases r with
     | ok v => cases hfail
     | err e' =>
-      simp only [] at ht hfail ⊢
+      simp only [isErr] at ht hfail ⊢
       obtain ⟨suf, hsuf, _, herr⟩ := ht.suffix
-      obtain ⟨_, _, hchain⟩ := herr e' rfl
+      obtain ⟨_, _, _, hchain⟩ := herr rfl
       simp only [hq.stack, List.length_nil, List.drop_zero] at hchain
       rw [hq.rolledback, List.nil_append] at hsuf
       injection hfail with he htb
@@ -150,9 +155,76 @@ theorem grammar_env_is_proper (cells : CellId → Option Expr) (ar : CellId → 
   rw [hf n]
   split
   · exact formulaOf_proper ar _ _
-  · simp [Proper]
+  · simp [Proper, ProperL]
 
 example : ProperEnv tEnv := grammar_env_is_proper tCells _ tEnv (fun _ => rfl)
 example : ProperEnv uEnv := grammar_env_is_proper uCells _ uEnv (fun _ => rfl)
+
+/-! ### A cells evaluated while an exception passes through: `except …: audit(x); raise`, `finally:`
+
+`vCells`: `c0 = c1() + 1`; `c1 = try: c3() except ValueError: c2(); raise`; `c2` (the audit) handles a
+`KeyError` of `c4` itself and returns; `c3` raises `ValueError`; `c5 = try: c6() finally: c2()` with
+`c6` returning `None` where that is not allowed.  The exception that leaves `c1` after the block is
+the `ValueError` of `c3` – not the `KeyError` that was raised and handled inside `c2` in between –
+so the traceback is `[c0, c1, c3]`; and `[c5, c6]` for the `finally` block. -/
+def vCells : CellId → Option Expr
+  | 0 => some (.add (.call 1 []) (.lit 1))
+  | 1 => some (.tryRe (.call 3 []) (.user kValue) (.call 2 []))
+  | 2 => some (.try_ (.call 4 []) .all (.lit 0))
+  | 3 => some (.raise kValue)
+  | 4 => some (.raise kKey)
+  | 5 => some (.tryFin (.call 6 []) (.call 2 []))
+  | 6 => some .none
+  | 7 => some (.tryRe (.call 3 []) .all (.call 4 []))
+  | _ => none
+
+def vEnv : Env where
+  formula := fun n => match vCells n.1 with
+    | some e => formulaOf (fun c => (vCells c).map (fun _ => 0)) e n.2
+    | none => .raise (.user kName)
+  cached := fun _ => true
+  allowNone := fun _ => false
+  refs := fun _ => .none
+  maxdepth := 10
+
+example : ProperEnv vEnv := grammar_env_is_proper vCells _ vEnv (fun _ => rfl)
+example : (evalTop vEnv (0, []) {}).1 = .formulaError (.user kValue) [(0, []), (1, []), (3, [])] := by decide
+-- the audit completed: its value is kept, and its own handled failure left four roll-back entries
+-- in all (c3; c4 for the handled KeyError; c1; c0)
+example : (evalTop vEnv (0, []) {}).2.data = [((2, []), .int 0)] := by decide
+example : ((runN vEnv 11 (0, []) {}).2.rolledback) =
+    [((3, []), 1), ((4, []), 2), ((1, []), 1), ((0, []), 1)] := by decide
+example : (evalTop vEnv (5, []) {}).1 = .formulaError .noneRet [(5, []), (6, [])] := by decide
+-- the block itself fails: the new exception is the one that escapes, from where it was raised
+example : (evalTop vEnv (7, []) {}).1 = .formulaError (.user kKey) [(7, []), (4, [])] := by decide
+
+/-- **A call that returns does not change which exception the caller re-raises**: after
+`eval_node` returned a value, the identity of the caller's exception and the stack recorded for it
+are what they were before the call – whatever was raised and handled inside. -/
+theorem returned_call_keeps_callers_exception (env : Env) (ef : Node → St → Res × St) (n : Node) (s : St)
+    (v : Val) (h : (evalNode env ef n s).1 = .ok v) :
+    (evalNode env ef n s).2.curExc = s.curExc ∧ (evalNode env ef n s).2.excStack = s.excStack := by
+  unfold evalNode at h ⊢
+  have key : ∀ p : Res × St, (keepExc s p).1 = .ok v →
+      (keepExc s p).2.curExc = s.curExc ∧ (keepExc s p).2.excStack = s.excStack := by
+    intro p hp
+    rw [keepExc_fst] at hp
+    rw [keepExc_ok s p v hp]
+    exact ⟨rfl, rfl⟩
+  by_cases ha : env.alive n.1 = true
+  case neg =>
+    -- a cells that does not exist returns nothing
+    have ha' : env.alive n.1 = false := by simpa using ha
+    simp only [ha', Bool.false_eq_true, if_false] at h
+    cases h
+  simp only [ha, if_true] at h ⊢
+  by_cases hc : env.cached n.1 = true
+  · simp only [hc, if_true] at h ⊢
+    cases hl : lookup s.data n with
+    | some w => exact ⟨(sameExc_hitEdge s n).curExc, (sameExc_hitEdge s n).excStack⟩
+    | none => simp only [hl] at h ⊢; exact key _ h
+  · have hc' : env.cached n.1 = false := by simpa using hc
+    simp only [hc', Bool.false_eq_true, if_false] at h ⊢
+    exact key _ h
 
 end MxModel.C17
